@@ -104,6 +104,7 @@ func (s *QSeq) End() int { return s.Offset + s.Len() }
 // Clone returns a copy of the sequence.
 func (s *QSeq) Clone() seq.Rower {
 	c := *s
+	c.SubAnnotations = append([]seq.Annotation(nil), s.SubAnnotations...)
 	c.Seq = make([][]alphabet.QLetter, len(s.Seq))
 	for i, s := range s.Seq {
 		c.Seq[i] = append([]alphabet.QLetter(nil), s...)
